@@ -195,7 +195,7 @@ Section Secure.
     | None => (None, None, None, None)
     | Some w1 =>
         match (match w1 with [] => Some zarg | _ => unm w1 end) with
-        | None => (Some w1, None, None, None)
+        | None => (Some w1, None, Some [], None)      (* bad-message reply, no body *)
         | Some a =>
             if negb (h_ok h) then (Some w1, Some a, Some [], None) else
             match mar (h_fun h a) with
